@@ -155,6 +155,9 @@ def make_scenario(seed, i):
             else:
                 ar = rng.randint(0, 2)
                 rows = _rows(rng, ar, 1 if ar == 0 else rng.randint(1, 3))
+            if style == "inferred" and ar >= 1 and rng.random() < 0.35:
+                # a function whose LAST parameter is *rest: its inferred arity is still the number of its parameters
+                style = "inferred-star"
             ops.append({"op": "register", "name": name, "style": style, "arity": ar, "rows": rows,
                         "first_only": rng.random() < 0.3})
         elif r < 0.62:
@@ -236,8 +239,34 @@ def real_native(real, rows, arity, style, first_only):
                                 if first_only:
                                     return
 
+    def s1(*rest):
+        # answers on whatever it is given: called as name/1 (the only arity it is registered for) this is n1
+        for row in rows:
+            v = vals(row)
+            if not rest:
+                yield False
+                continue
+            for _l1 in unify(rest[0], v[0]):
+                yield False
+                if first_only:
+                    return
+
+    def s2(arg1, *rest):
+        for row in rows:
+            v = vals(row)
+            for _l1 in unify(arg1, v[0]):
+                if not rest:
+                    yield False
+                    continue
+                for _l2 in unify(rest[0], v[1]):
+                    yield False
+                    if first_only:
+                        return
+
     if style == "inferred":
         return (n0, n1, n2)[arity]
+    if style == "inferred-star":
+        return (None, s1, s2)[arity]
     return nv
 
 
@@ -302,7 +331,7 @@ def run_scenario(sc):
             rows = [tup(r) for r in op["rows"]]
             f = real_native(real, rows, op["arity"], op["style"], op["first_only"])
             try:
-                if op["style"] == "inferred":
+                if op["style"] in ("inferred", "inferred-star"):
                     real.yp.register_function(op["name"], f)
                 elif op["style"] == "explicit":
                     real.yp.register_function(op["name"], f, arity=op["arity"])
